@@ -13,7 +13,8 @@ def main():
     ap.add_argument("--replay")
     a = ap.parse_args()
     if a.tier == "thorough":
-        os.environ.setdefault("VERIF_XCHECK", "1")   # thorough tier: re-discharge sampled verdict queries with cvc5 and z3 4.8.12
+        os.environ.setdefault("VERIF_XCHECK", "1")
+        os.environ.setdefault("VERIF_ABC", "1")   # thorough tier: re-discharge sampled verdict queries with cvc5 and z3 4.8.12
     mod = importlib.import_module("props." + a.pid.lower())
     if a.replay:
         from lib import runner
